@@ -1041,3 +1041,92 @@ pub fn t10() -> BoxedStrategy<Value> {
         })
         .boxed()
 }
+
+/// T11: the recursion cap. A chain of 1026-1146 nodes is reclaimed in one disposal pass until the
+/// pass stops at depth 1024 and hands the rest back to the collector; a Weak to a node 1021-1028
+/// links from the head is upgraded (both ways) while the pass is parked at that very moment (or a
+/// few steps around it), peers advance the epoch, the pass resumes.
+pub fn t11() -> BoxedStrategy<Value> {
+    (
+        0u8..48,
+        (0u8..60, 1u8..9, 0u8..5, 0u32..24, 0u8..3),
+        (any::<bool>(), 0u8..3, 0u8..4, any::<bool>()),
+    )
+        .prop_map(|(align, (half, c, settle, jitter, park_kind), (via_snapshot, padv, when, hold))| {
+            let (d, m, p) = (0usize, 1usize, 2usize);
+            let mut t = TB::new(3);
+            t.new_long_chain(d, "C", half, 4, c, "w");
+            t.pin(d);
+            t.wstore(d, WC::Root(0), Some("w"), 0);
+            t.unpin(d, 0);
+            t.advance(d, settle);
+            t.run(d);
+            t.pin(m);
+            t.wload(m, WC::Root(0), 0, "ws");
+            t.wcounted(m, "ws", "w");
+            t.unpin(m, 0);
+            t.run(m);
+            t.drop_rc(d, "C");
+            t.run(d);
+            let upg = |t: &mut TB| {
+                if via_snapshot {
+                    t.pin(m);
+                    t.wsnapshot(m, "w", 0, "ws2");
+                    t.wupgrade(m, "ws2", true, "s");
+                    t.deref_s(m, "s");
+                    if hold {
+                        t.run(m);
+                    } else {
+                        t.counted(m, "s", "X");
+                        t.unpin(m, 0);
+                        t.run(m);
+                    }
+                } else {
+                    t.upgrade(m, "w", true, "X");
+                    t.run(m);
+                }
+            };
+            t.advance(d, 7);
+            match when {
+                0 => {
+                    // before the pass starts
+                    upg(&mut t);
+                }
+                _ => {
+                    match park_kind {
+                        0 => t.until_event(d, circ::verif::ev::REDEFER, 1),
+                        1 => {
+                            t.until_event(d, circ::verif::ev::REDEFER, 1);
+                            t.until_steps(d, jitter);
+                        }
+                        _ => {
+                            // shortly before the cap: 1020+ nodes disposed
+                            t.until_event(d, circ::verif::ev::DISPOSE, 1016 + jitter);
+                        }
+                    }
+                    upg(&mut t);
+                }
+            }
+            t.advance(p, padv);
+            t.run(p);
+            t.until_end(d);
+            if via_snapshot && hold {
+                t.deref_s(m, "s");
+                t.counted(m, "s", "X");
+                t.unpin(m, 0);
+            }
+            t.deref(m, "X");
+            t.run(m);
+            t.advance(p, 5);
+            t.run(p);
+            t.deref(m, "X");
+            t.drop_rc(m, "X");
+            t.run(m);
+            t.advance(p, 6);
+            t.run(p);
+            t.upgrade(m, "w", false, "Xv");
+            t.run(m);
+            t.finish(align, "T11")
+        })
+        .boxed()
+}
